@@ -175,7 +175,60 @@ def run(tier, seed):
             chk.violation({"part": "trace", "op": ev["op"]},
                           f"trace {tr['tid']}: event {reached[tr['tid']] + 1} ({ev['op']}) is not a step of GraphSM from the state reached",
                           {"trace": tr, "matched_prefix": reached[tr["tid"]]})
-    chk.traces = ntr + nstate
+    # ---- (c) the Graph objects of the repository's own test-suite, validated the same way
+    import os
+    import subprocess
+    from harness.common import REPO, VERIF
+    out = chk.dir / "repo_graphs.ndjson"
+    if out.exists():
+        out.unlink()
+    env = dict(os.environ, CSPUZ_VERIF_GRAPH_RECORD=str(out), PYTHONPATH=f"{REPO}:{VERIF}")
+    subprocess.run(["/venv/bin/python", "-m", "pytest", "-q", "-p", "no:cacheprovider", "-p", "harness.graph_recorder",
+                    "--timeout=900", "tests"], cwd=str(REPO), env=env, capture_output=True, text=True, timeout=1800)
+    if not out.exists():
+        raise MachineryError("graph recorder wrote nothing")
+    NVR = 40
+    rtr, seen, skipped = [], set(), 0
+    for line in open(out):
+        t = json.loads(line)
+        if t["nv"] > NVR or len(t["events"]) > 160 or any(len(e.get("pairs", [])) > 400 for e in t["events"]):
+            skipped += 1
+            continue
+        key = json.dumps(t["events"], sort_keys=True)
+        if (t["nv"], key) in seen:          # the suite builds the same small graphs again and again
+            continue
+        seen.add((t["nv"], key))
+        for e in t["events"]:
+            if e["op"] == "observe":
+                e["inc"] = e["inc"] + [[] for _ in range(NVR - t["nv"])]
+        t["tid"] = len(rtr)
+        rtr.append(t)
+        if len(rtr) >= (150 if tier == "quick" else 1500):
+            break
+    if not rtr:
+        raise MachineryError("no Graph object of the repository tests was recorded")
+    rpath = chk.dir / "repo_graph_traces.ndjson"
+    write_ndjson(rpath, rtr)
+    cfg = chk.dir / "Trace_GraphSM_repo.cfg"
+    cfg.write_text(open(VERIF / "spec" / "Trace_GraphSM.cfg").read().replace("CONSTANT NV = 10", f"CONSTANT NV = {NVR}"))
+    res3 = run_tlc("Trace_GraphSM", str(cfg), workdir=chk.dir, env={"TRACE_FILE": str(rpath)}, timeout=3000)
+    chk.add_tlc(res3)
+    reached = {}
+    for v in res3.records:
+        reached[v["tid"]] = max(reached.get(v["tid"], 0), v["l"])
+    for tr in rtr:
+        n = len(tr["events"])
+        chk.note_case(f"repo-graph/{tr['tid']}", n >= 5)
+        got = reached.get(tr["tid"], -1)
+        if got != n:
+            ev = tr["events"][max(got, 0)]
+            chk.violation({"part": "repo-test-trace", "op": ev["op"]},
+                          f"a Graph({tr['nv']}) built by the repository's tests: event {got + 1} ({ev['op']}) is not a step of GraphSM",
+                          {"nv": tr["nv"], "events": tr["events"][:max(got, 0) + 1][-3:], "matched_prefix": got})
+    chk.extra["repo_test_graph_objects_validated"] = len(rtr)
+    chk.extra["repo_test_graph_objects_skipped_as_too_large"] = skipped
+    chk.extra["repo_test_graph_events_validated"] = sum(len(t["events"]) for t in rtr)
+    chk.traces = ntr + nstate + len(rtr)
     chk.sample(res.records[50])
     chk.sample({"tid": traces[0]["tid"], "events": traces[0]["events"][:3]})
     chk.rule = ("case = one reachable state of GraphSM replayed into Graph, one lattice size, or one recorded session of a real "
